@@ -1,5 +1,5 @@
 """C19 — value generators follow the iterator protocol and their formulas
-(mptplot/values/iterator_*.c, values_linear.c, values_bound.c, mptcore/meta/iterator_string.c,
+(mptplot/values/iterator_*.c, values_linear.c, values_bound.c, range_set.c, mptcore/meta/iterator_string.c,
 mptcore/array/meta_buffer.c, mptcore/types/iterator_consume.c)."""
 import ctypes, math, re, struct
 from fractions import Fraction
@@ -66,8 +66,9 @@ def unhx(h):
 # Each constant belongs to ONE patch file under docs/.  False = the patch is not committed in /repo yet: the
 # generator then keeps the operations that need the patched behaviour to texts on which patched and unpatched
 # code agree (the model follows the PATCHED code).  Set to True after committing the patch; nothing else changes.
-PATCH_STRING_VECTOR = True          # docs/C19_string_vector.diff  (element of a text iterator as 'c' vector)
-PATCH_STRING_KEY_SEPARATOR = True   # docs/C19_string_key_separator.diff  (keyword element ending in a separator)
+PATCH_STRING_VECTOR = True         # docs/C19_string_vector.diff  (element of a text iterator as 'c' vector)
+PATCH_STRING_KEY_SEPARATOR = True  # docs/C19_string_key_separator.diff  (keyword element ending in a separator)
+PATCH_STRING_META_TARGET = True    # docs/C19_string_meta_target.diff  (text iterator metatype to 's' without target: op n)
 
 TEXT_KINDS = ("create", "values", "string")
 GRID_KINDS = ("poly", "profile")
@@ -106,6 +107,8 @@ OPS = "vvvaaarckwsVVAARCKWSzmZ"
 KEY_OPS = "yyyqaaaarcjmzsYYQAARCJZ"
 VEC_OPS = "xxxoaaaarclmzsXXOAARCLZ"
 MIX_OPS = "vyxuqoaaaarckwsjlmzVYXUAARCKWJLZ"
+if PATCH_STRING_META_TARGET:
+    KEY_OPS, VEC_OPS, MIX_OPS = KEY_OPS + "nN", VEC_OPS + "nN", MIX_OPS + "nN"
 
 
 def rnd_ops(rng, maxlen=30, alphabet=OPS):
@@ -399,8 +402,15 @@ class C19(DiffProperty):
     rule = ("a case = one source (description text for mpt_iterator_create / _values / _string / _poly / _profile, or the arguments of "
             "mpt_iterator_linear / _boundary / mpt_meta_buffer / _arguments / mpt_values_linear / _bound, or a text/value-list iterator handed as "
             "TypeIteratorPtr value to _mpt_iterator_linear/_range/_factor - kind from, with the next value of the source observed) + an interleaving of up to 30 calls "
-            "of value / advance / reset / clone / mpt_iterator_consume / documented loop (<= 40 elements) / read-as-string on the source "
-            "(lower case) and on its clone (upper case). Descriptions are generated from the grammar (lin|linear, fac|fact|factor, range, value "
+            "of value / advance / reset / clone / mpt_iterator_consume ('d', and type 0 = skip) / documented loop (<= 40 elements) / "
+            "read-as-string / conversions of the metatype itself (text and buffer iterators: type list, iterator, buffer, vector, string, "
+            "unsupported type, with and without target, addref) on the source (lower case) and on its clone (upper case). Text iterators "
+            "(mpt_iterator_string with separator configurations NULL, empty, ':', ',;', ' ', ': ', '=', tab+',', 'b', the default) are also "
+            "read element by element as keyword ('k'), as 'c' vector, as uint32 and without target, and walked with the documented loop "
+            "reading keywords / vectors; histories of ONE reader are compared with the cursor of that reader, histories mixing readers "
+            "with the mechanism model only. Buffer/argument iterators are also consumed as numbers (refused). mpt_range_set is also "
+            "called directly (kind rset: iterator value over a text/value-list source, null iterator pointer, vector of doubles with "
+            "0..3 elements and byte lengths 8n-8..8n+7, null base, null vector, other types) on a range preset to 7..9. Descriptions are generated from the grammar (lin|linear, fac|fact|factor, range, value "
             "lists; profile lin/bound/poly) with counts 0,1,2,..,2^31-1,2^31,2^32-2,2^32-1,2^32,negative, hex/octal, overlong, and bounds "
             "including 1e308, DBL_MAX, denormals, inf, nan, 1e400, hex floats; 30% are mutated (delete/insert/duplicate/replace a character, "
             "truncate, extra blanks, extra separators). COMPARISON: I (code) against M (mechanism model, binary64 arithmetic modelled exactly "
@@ -409,31 +419,44 @@ class C19(DiffProperty):
             "(value/none/error; advance more/end/refused; reset ok; clone offered; consume ok+value/refused; walk count+end+values) exactly; for "
             "linear sources with finite bounds every value must additionally lie within 4 ulp (binary64, ulp taken at |a|+|b|) of the exact "
             "rational closed form a + i*(b-a)/n computed by the specification (applied where b-a does not overflow and the exact step "
-            "(b-a)/n is zero or a normal binary64 number). A case is non-trivial when it runs at least one call.")
+            "(b-a)/n is zero or a normal binary64 number). A case is non-trivial when it runs at least one call. While "
+            "PATCH_STRING_VECTOR / PATCH_STRING_KEY_SEPARATOR (top of props/c19.py) are False the generator keeps vector reads to texts "
+            "'(word blank)+' and keyword reads to texts without separator characters, where patched and unpatched code agree; the "
+            "conversion of the text-iterator metatype to 's' WITHOUT target (op n) is generated only with PATCH_STRING_META_TARGET.")
     modelled = ("mptplot/values/{iterator_linear,iterator_factor,iterator_boundary,iterator_poly,iterator_values,iterator_create,"
-                "iterator_profile,values_linear,values_bound}.c, mptcore/meta/iterator_string.c (conversions to double and string), "
-                "mptcore/array/meta_buffer.c + slice_next.c for 'c' arrays, mptcore/types/iterator_consume.c (target 'd'), "
+                "iterator_profile,values_linear,values_bound,range_set}.c, mptcore/meta/iterator_string.c (element conversions to double, "
+                "uint32, string, keyword incl. mpt_convert_key with separator configurations, 'c' vector; clone; result codes of the "
+                "metatype conversions), mptcore/array/meta_buffer.c + slice_next.c for 'c' arrays (iterator, clone, all metatype "
+                "conversions incl. the command string of the argument iterator), mptcore/types/iterator_consume.c (target 'd' and type 0), "
                 "mptcore/misc/string_nextvis.c, the control flow of mpt_cdouble / mpt_cuint32 transcribed in coq/C19/IterModel.v; "
                 "binary64 arithmetic is modelled exactly (round-to-nearest-even on rationals; sign of zero not represented); strtod / "
                 "strtoumax are oracles; mpt_range_set and the constructors fed from another iterator (consume 'u'/'d' from a text iterator or a "
-                "value list) are modelled; NOT modelled: the 'file' profile, keyword ('k') and vector conversions of the string iterator, "
-                "typed (non-char) buffers, errno values, allocation failure")
+                "value list) are modelled. The keyword and vector element conversions are modelled AS PATCHED "
+                "(docs/C19_string_key_separator.diff, docs/C19_string_vector.diff). NOT modelled: the 'file' profile, the CONTENT of the "
+                "'s'/vector conversions of the text-iterator METATYPE (they hand out the separator configuration, see notes), typed "
+                "(non-char) buffers (harness syntax <hex>@<type> exists, generator does not emit it), errno values, allocation failure")
     trusted = ["libc strtod / strtoumax (value, consumed length, ERANGE) are an oracle: the generator asks the same libc through ctypes for every "
                "offset of every text and the model consumes the table; isspace/isgraph/isalpha of the 'C' locale are ASCII tables in the model",
                "IEEE-754 binary64 round-to-nearest-even of the host (SSE2, no contraction at -O1) is what rnd64 in IterModel.v computes; this is "
                "validated by the bit-exact comparison of every value, not proved",
-               "harness/c19_iter.c reads values the way examples/iter.c does (value(), mpt_value_convert to 'd'); texts live in exact-size heap blocks"]
-    level_text = ("proof: 32 Coq theorems (coq/C19/Properties.v), all for EVERY arithmetic rnd : Q -> fv, every count in N and every history, no "
+               "harness/c19_iter.c reads values the way examples/iter.c does (value(), mpt_value_convert to 'd'); texts live in exact-size heap blocks; "
+               "keywords are read as C strings up to the terminator the iterator wrote, vectors by base and length (lengths above 100000 are printed as 'wild')"]
+    level_text = ("proof: 41 Coq theorems (coq/C19/Properties.v), all for EVERY arithmetic rnd : Q -> fv, every count in N and every history, no "
                   "bound. Protocol: C19_walk_visits_exactly / C19_walk_of_nothing / C19_text_walk_visits_exactly (documented loop yields exactly "
                   "the remaining denoted sequence and stops), C19_past_end_reported, C19_reset_replays + C19_denoted_stable, C19_clone_replays / "
-                  "C19_clone_refines, C19_history_refines (any interleaving of value/advance/reset/clone on source and clone, all seven kinds), "
-                  "C19_build_fresh / C19_buffer_fresh / C19_text_fresh. Descriptions: C19_accepted_iff_in_grammar (mpt_iterator_create accepts "
+                  "C19_clone_refines, C19_history_refines (any interleaving of value/advance/reset/clone/skip on source and clone, all seven kinds), "
+                  "C19_build_fresh / C19_buffer_fresh / C19_text_fresh (any separators). Text iterator read as keywords / 'c' vectors, every "
+                  "separator configuration: C19_byte_history_refines (any interleaving of such reads with and without target, advance, reset, "
+                  "clone on source and clone refines the cursor over the elements the text denotes for that reader), "
+                  "C19_byte_walk_visits_exactly, C19_byte_text_fresh, C19_key_element / C19_vector_element (what the readers hand out and "
+                  "which single byte ends an element, stated without the scanning loops), C19_buffer_no_numbers. Descriptions: C19_accepted_iff_in_grammar (mpt_iterator_create accepts "
                   "EXACTLY the grammar, with count/bounds at the named positions), C19_malformed_refused, C19_grammar_unambiguous, "
                   "C19_profile_iff_in_grammar, C19_poly_accepted_in_grammar / C19_poly_in_grammar_accepted, C19_build_denotes / "
                   "C19_created_denotes / C19_profile_denotes (accepted => denotes exactly the sequence given by count and formula, iterator "
                   "at its start). Formulas: C19_linear_closed_form + _first/_last/_equal_steps, C19_poly_exact (exact arithmetic), "
                   "C19_values_linear_spec / C19_values_bound_spec / C19_values_small / C19_values_linear_exact. Feeding: C19_range_from_numbers, "
-                  "C19_count_from_numbers_refused. The model is tied to the code on every run by differential execution under ASan/UBSan; "
+                  "C19_count_from_numbers_refused, C19_range_set_from_numbers / C19_range_set_vector / C19_range_set_other (mpt_range_set for "
+                  "every value type). The model is tied to the code on every run by differential execution under ASan/UBSan; "
                   "binary64 arithmetic is modelled exactly, every value compared bit for bit")
     level_note = ("trusted: Coq kernel; hand transcription of the C files (validated by the correspondence run, not verified); extraction and "
                   "OCaml driver; harness; libc strtod/strtoumax as oracle (table per text offset; the grammar tokens are defined as what the "
@@ -442,7 +465,19 @@ class C19(DiffProperty):
                   "mpt_values_linear) are proved for exact arithmetic; their distance to the binary64 evaluation is checked by the stated "
                   "4-ulp rule on every explored case, not proved; (2) constructors fed from a TEXT iterator are modelled and compared only "
                   "(theorems cover sources that serve numbers); the name tails of the profile keywords (next_vis_cont/next_vis0) enter the "
-                  "profile grammar as the model's lexical functions; (3) the 'file' profile is not modelled. All theorems are closed under "
+                  "profile grammar as the model's lexical functions; (3) the 'file' profile is not modelled; (4) histories that MIX the "
+                  "readers of a text iterator (numbers, keywords, vectors, uint32) are compared with the mechanism model only - the cursor "
+                  "theorems hold per reader; the metatype conversions (parseConv / bufferConv / bufferConvArgs) are result-code tables "
+                  "compared with the code, not subject of a theorem. THREE OPEN DEFECTS in mptcore/meta/iterator_string.c (replays "
+                  "docs/C19_replay_string_vector*.json, docs/C19_replay_string_key_separator*.json, docs/C19_replay_string_meta_target.json; "
+                  "patches docs/C19_string_vector.diff, docs/C19_string_key_separator.diff, docs/C19_string_meta_target.diff): the model and "
+                  "the theorems describe the code WITH the patches; until they are committed the switches PATCH_STRING_VECTOR / "
+                  "PATCH_STRING_KEY_SEPARATOR / PATCH_STRING_META_TARGET in props/c19.py are False and the generator keeps vector / keyword "
+                  "reads to texts on which patched and unpatched code agree and does not emit op n. Unreachable in the anchored files (not "
+                  "driven): bufferConvertEntry and the converter branch of bufferGet (entry.converter is never set), the failure branch of "
+                  "mpt_meta_buffer (bufferReset never returns < 0), iterator_string.c lines 51/82/149 (a pending terminator implies a "
+                  "non-blank element; no NUL inside the text without one); the failure branch of mpt_meta_arguments needs a typed buffer "
+                  "with a partial last element (not modelled). All theorems are closed under "
                   "the global context (no axioms). The model follows /repo main including 70bd00b (white-space-only element = MissingData). See docs/notes_C19.md.")
     technique = "Coq proof (state machines refine a cursor over the denoted sequence) + differential correspondence check with exact binary64 model"
     assumptions = ["malloc succeeds", "texts contain no byte >= 0x80 (the C code passes plain char to isspace)",
@@ -457,6 +492,8 @@ class C19(DiffProperty):
             skip.add("patched_string_vector.cases")
         if not PATCH_STRING_KEY_SEPARATOR:
             skip.add("patched_string_key_separator.cases")
+        if not PATCH_STRING_META_TARGET:
+            skip.add("patched_string_meta_target.cases")
         cs = []
         for f in sorted(os.listdir(d)):
             if f in skip or not f.endswith(".cases"):
@@ -499,6 +536,8 @@ class C19(DiffProperty):
             return p[0] + ":-" if int(p[1]) < 0 else p[0] + ":" + p[2]
         if tok[:3] in ("Yn:", "Xn:"):
             return tok[:3] + ("-" if int(tok[3:]) < 0 else "+")
+        if tok.startswith("Sn:"):
+            return "Sn:" + ("-" if int(tok[3:]) < 0 else "+")
         if tok.startswith("Z:"):
             n = int(tok[2:])
             return "Z:+" if n > 0 else ("Z:0" if n == 0 else "Z:-")
